@@ -123,6 +123,54 @@ pub fn run(ctx: &Ctx) -> Report {
             rep.count("uniform_measure_variants", 1);
         }
     });
-    rep.guard("grid+random shapes evaluated", rep.evaluations, if ctx.only.is_some() { 1 } else { items.len() as u64 });
+    // ---- shapes that do not come out of a constructor: polygons converted from polylines
+    //      (rings left open) and shapes decoded from foreign-layout files (unclosed rings, empty
+    //      parts, absent measures), serialised again
+    let n_conv = if cfg!(miri) { 2 } else { ctx.pick(300, 3000) };
+    for (pt, lt) in [(5, 3), (25, 23), (15, 13)] {
+        for k in 0..n_conv {
+            let case = format!("c18:from-polyline:t{}:k{}", pt, k);
+            if !ctx.want(&case) {
+                continue;
+            }
+            let mut r = Rng::derive(seed, &[tag("c18-conv"), pt as u64, k as u64]);
+            let line = gen::shape(lt, &mut r, &Cfg::hostile(0.1, 4, 6));
+            let poly = match line {
+                Shape::Polyline(l) => Shape::Polygon(Polygon::from(l)),
+                Shape::PolylineM(l) => Shape::PolygonM(PolygonM::from(l)),
+                Shape::PolylineZ(l) => Shape::PolygonZ(PolygonZ::from(l)),
+                _ => continue,
+            };
+            check(&poly, &case, &mut rep);
+            rep.count("polygons_converted_from_polylines", 1);
+        }
+    }
+    if let Some(dir) = ctx.opt("foreign") {
+        let manifest = std::fs::read_to_string(format!("{}/files.jsonl", dir)).expect("harness: files.jsonl");
+        for (fi, line) in manifest.lines().enumerate() {
+            let name = match line.find("\"file\": \"") {
+                Some(i) => line[i + 9..].split('"').next().unwrap_or("").to_string(),
+                None => continue,
+            };
+            let bytes = match std::fs::read(format!("{}/{}.shp", dir, name)) {
+                Ok(b) => b,
+                Err(_) => continue,
+            };
+            if let Ok(shapes) = ShapeReader::new(std::io::Cursor::new(bytes)).and_then(|r| r.read()) {
+                for (k, s) in shapes.iter().enumerate() {
+                    if matches!(s, Shape::NullShape) {
+                        continue;
+                    }
+                    let case = format!("c18:foreign:f{}:{}:k{}", fi, name, k);
+                    if ctx.want(&case) {
+                        check(s, &case, &mut rep);
+                        rep.count("shapes_decoded_from_foreign_files_and_reserialised", 1);
+                    }
+                }
+            }
+        }
+    }
+    let evals = rep.evaluations;
+    rep.guard("grid+random shapes evaluated", evals, if ctx.only.is_some() { 1 } else { items.len() as u64 });
     rep
 }
